@@ -26,7 +26,7 @@ import sys
 import time
 from concurrent.futures import ThreadPoolExecutor
 
-REPO = os.environ.get("VERIF_REPO_PATH") or "/repo"
+from harness import REPO
 if REPO != "/repo":
     sys.path.insert(0, REPO)
 
@@ -152,7 +152,8 @@ def _project(steps):
     if s["type"] == "BotIntent":
         return ["B", s["intent"]]
     if s["type"] == "StartInternalSystemAction":
-        return ["S", s["action_name"]]
+        # compute_next_steps does not resolve arguments: the value is not observed here (-2), -1 = no argument
+        return ["S", s["action_name"], -2 if "v" in (s.get("action_params") or {}) else -1]
     return ["O", s["type"]]
 
 
@@ -263,6 +264,7 @@ class _Script:
     def __init__(self):
         self.vals = []
         self.overrun = False
+        self.calls = []          # (action name, received argument) per call
 
     def take(self):
         if self.vals:
@@ -281,7 +283,8 @@ def build_rails(prog):
     script = _Script()
 
     def mk(name):
-        async def act():
+        async def act(v="<absent>"):
+            script.calls.append((name, v))
             return script.take()
         act.__name__ = name
         return act
@@ -306,17 +309,24 @@ def play_B(app, script, prog, intents, vals):
         events.append(new_event_dict("UserIntent", intent=i))
         stream.append(["u", i, 0])
         log = []
+        script.calls = []
         try:
             new = asyncio.run(app.runtime.generate_events(events, processing_log=log))
         except Exception as ex:
             new = [x["data"] for x in log if x.get("type") == "event"][1:]
             fail = "%s: %s" % (type(ex).__name__, str(ex)[:120])
+        ncall = 0
         for e in new:
             t = e["type"]
+            if t == "StartInternalSystemAction" and e.get("action_name") in acts:
+                # the argument the action function actually received (k-th start = k-th call of this turn)
+                got = script.calls[ncall][1] if ncall < len(script.calls) and script.calls[ncall][0] == e["action_name"] else None
+                ncall += 1
+                arg = -1 if got == "<absent>" else got if isinstance(got, int) and not isinstance(got, bool) and got >= 0 else -2 if got is None else -3
+                stream.append(["S", e["action_name"], arg])
+                continue
             if t == "BotIntent" and e.get("intent") in bots:
                 stream.append(["B", e["intent"], 0])
-            elif t == "StartInternalSystemAction" and e.get("action_name") in acts:
-                stream.append(["S", e["action_name"], 0])
             elif t == "InternalSystemActionFinished" and e.get("action_name") in acts:
                 stream.append(["a", e["action_name"], e.get("return_value")])
             elif t == "ContextUpdate":
@@ -334,7 +344,9 @@ def play_B(app, script, prog, intents, vals):
             continue
         hist.append(["b", s[1], 0] if s[0] == "B" else s)
         nxt = rel[n + 1] if n + 1 < len(rel) else None
-        if nxt is not None and nxt[0] in ("B", "S"):
+        if nxt is not None and nxt[0] == "S":
+            obs.append(["S", nxt[1], nxt[2]])
+        elif nxt is not None and nxt[0] == "B":
             obs.append([nxt[0], nxt[1]])
         elif nxt is None and fail:
             obs.append(["?", ""] if "Too many events" in fail else ["X", fail])
@@ -443,6 +455,10 @@ def _sig(prog, mode, exp, obs, depth=0):
             "flows": len(prog["flows"])}
 
 
+def _agree(o, e):
+    return o == e or (o[0] == "S" and e[0] == "S" and o[1] == e[1] and len(o) == 3 and len(e) == 3 and -2 in (o[2], e[2]))
+
+
 def _fmt(h):
     return " ".join("%s:%s%s" % (e[0], e[1], ("=%s" % e[2]) if e[0] == "a" else "") for e in h)
 
@@ -450,7 +466,8 @@ def _fmt(h):
 def _fmtd(d):
     return {"B": "BotIntent %s", "S": "StartInternalSystemAction %s", "N": "nothing (listen)%s", "X": "exception %s",
             "-": "not judged%s", "?": "not observed%s", "M": "several steps %s", "O": "other step %s",
-            "H": "no answer (hang)%s"}.get(d[0], d[0] + " %s") % d[1]
+            "H": "no answer (hang)%s"}.get(d[0], d[0] + " %s") % (
+                d[1] + ({-1: "", -2: "(v=<not judged>)", -3: "(v=<not an integer>)"}.get(d[2], "(v=%s)" % d[2]) if len(d) > 2 else ""))
 
 
 # ---------------------------------------------------------------- run
@@ -517,7 +534,7 @@ def _batch(ctx, pool, progs, tier, rnd, acc):
                     pk = (pid, json.dumps(h[:n + 1]))
                     if pk not in acc["prefixes"]:
                         acc["prefixes"].add(pk)
-                        if obs[n] != e[n]:
+                        if not _agree(obs[n], e[n]):
                             py_mismatch += 1
                         if compound and sum(1 for x in e[:n + 1] if x[0] != "-") >= 2:
                             acc["nontriv"] += 1
